@@ -387,6 +387,41 @@ def run(ch, idx, tier):
                 bump("evaluations")
                 bump("probe:restart_with_other_saved_states_alive")
                 judge(new, ci, t[ci], medium, 0, True)
+        # ---- a run resumed in segments: run to Y1, save the final state (the documented default of set_initialization:
+        # the last time point) INTO THE SAME parameter set, continue from Y1 to Y2, ... - the pieces are the original run
+        if N >= 6 and name not in HEAVY and dt in (0.25, 0.5, 1.0, 0.125, 0.0625) and ch.flip("segmented_run", 0.4):
+            cuts = sorted({1 + ch.choose(f"segment.cut[{j}]", N - 2) for j in range(1 + ch.choose("segment.n", 3))})
+            ps_seg = parset.copy("segmented")
+            seg_from = 0
+            s0, e0 = P.settings.sim_start, P.settings.sim_end
+            try:
+                for cut in cuts + [N - 1]:
+                    P.settings.update_time_vector(start=float(t[seg_from]), end=float(t[cut]))
+                    try:
+                        r_seg = P.run_sim(ps_seg, progset, instructions)
+                    except Exception as e:
+                        violations.append({"cls": "restart_raises", "site": "segmented_run", "detail": {"exception": f"{type(e).__name__}: {str(e)[:300]}", "segment": [float(t[seg_from]), float(t[cut])], "config": config}})
+                        break
+                    if len(r_seg.t) != cut - seg_from + 1 or not np.array_equal(r_seg.t, t[seg_from : cut + 1]):
+                        bump("skipped_restarted_grid_differs")
+                        break
+                    bump("evaluations")
+                    bump("probe:segment_of_resumed_run_compared")
+                    seg_ref = {k2: v2[..., seg_from : cut + 1] for k2, v2 in ref_arr.items()}
+                    bad = compare_arrays(seg_ref, result_arrays(r_seg), rtol=0.0, atol=0.0)
+                    if bad:
+                        key = ("trajectory_not_bit_identical", "resumed_in_segments")
+                        if key not in first_detail:
+                            first_detail[key] = {"segment": [float(t[seg_from]), float(t[cut])], "cuts": [float(t[c_]) for c_ in cuts], "first_bad": [[p_, w_, ix_] for p_, w_, ix_ in bad[:4]], "n_bad_arrays": len(bad), "config": config}
+                        break
+                    if ch.flip("segment.via_dcp", 0.3):
+                        import sciris as _sc
+
+                        ps_seg = _sc.dcp(ps_seg)
+                    ps_seg.set_initialization(r_seg)  # no year: the state at the end of the segment
+                    seg_from = cut
+            finally:
+                P.settings.update_time_vector(start=s0, end=e0)
         for (cls, site), detail in first_detail.items():
             violations.append({"cls": cls, "site": site, "detail": detail})
         if entry.meta["timed"]:
